@@ -46,6 +46,10 @@ type Op struct {
 	Size    int64  `json:"size,omitempty"`    // resize: bytes
 	B       bool   `json:"b,omitempty"`       // setrebuilding
 	Tok     int64  `json:"tok,omitempty"`     // write: token (block = tok mod nblk)
+	Source  string `json:"source,omitempty"`  // replace: the source disk (Name is the target)
+	// names (volume.meta.tmp, <disk>.meta.tmp) at which a directory is placed while the operation
+	// runs: every open of such a name fails, the operation FAILS without any tracing tool
+	Blocked []string `json:"blocked,omitempty"`
 }
 
 type Case struct {
@@ -242,6 +246,21 @@ func (r *runner) step(op Op) (o Obs) {
 }
 
 func (r *runner) step1(op Op) Obs {
+	for _, b := range op.Blocked {
+		os.Mkdir(filepath.Join(r.dir, b), 0700)
+	}
+	o := r.step2(op)
+	return o
+}
+
+func (r *runner) unblock(op Op) {
+	for _, b := range op.Blocked {
+		os.Remove(filepath.Join(r.dir, b))
+	}
+}
+
+func (r *runner) step2(op Op) Obs {
+	defer r.unblock(op)
 	s := r.s
 	var res, msg string
 	actions := 0
@@ -283,9 +302,12 @@ func (r *runner) step1(op Op) Obs {
 		res, msg = rc(s.SetCheckpoint(op.Name))
 	case "rebuilding":
 		res, msg = rc(s.SetRebuilding(op.B))
+	case "replace":
+		res, msg = rc(s.ReplaceDisk(op.Name, op.Source))
 	default:
 		res, msg = "err", "unknown op "+op.Op
 	}
+	r.unblock(op)
 	o := Obs{Res: res, Err: msg, Actions: actions}
 	if rep := r.s.Replica(); rep != nil {
 		observeReplica(&o, rep)
